@@ -3,6 +3,7 @@
 -/
 import GocoinV.Model.WalletKeys
 import GocoinV.Proofs.C14HD
+import GocoinV.Proofs.C15Base58
 namespace GocoinV.Proofs.C14
 open GocoinV HD WalletKeys
 
@@ -243,6 +244,24 @@ theorem wif_roundtrip_core (C : WalletCrypto) (key : Bytes) (ver : UInt8) (compr
       generalize (ver :: key ++ (C.shaHash (ver :: key)).take 4) = pkb at *
       simp only [l2, Nat.lt_irrefl, ↓reduceIte, Nat.reduceSub, t1, d1, ne_eq, not_true_eq_false, k1,
         h0, Nat.reduceEqDiff, false_and, decide_false, newPrivateAddr, hpub, Nat.reduceGT]
+
+/-- discharged by C15's Base58 theorem (Proofs/C15Base58.lean) -/
+theorem b58RoundTrip_of_ne (b : Bytes) (h : b ≠ []) : B58RoundTrip b := Base58.decode_encode b h
+
+theorem b58_encode_nil : Base58.encode [] = [] := by
+  have : Base58.digits 0 = [] := by rw [Base58.digits]; simp
+  simp [Base58.encode, Base58.leadingZeros, beVal, leVal, this]
+
+theorem b58_decode_nil : Base58.decode [] = none := by
+  have : Base58.natBytes 0 = [] := by rw [Base58.natBytes]; simp
+  simp [Base58.decode, Base58.value?, this]
+
+/-- a non-empty byte string is never encoded like the empty one -/
+theorem b58_encode_ne_nil (b : Bytes) (h : b ≠ []) : Base58.encode b ≠ Base58.encode [] := by
+  intro e
+  have := congrArg Base58.decode e
+  rw [Base58.decode_encode b h, b58_encode_nil, b58_decode_nil] at this
+  exact absurd this (by simp)
 
 theorem findIdx_le_of_pred {α} (p : α → Bool) : ∀ (l : List α) (i : Nat) (h : i < l.length), p l[i] = true →
     l.findIdx p ≤ i
